@@ -102,7 +102,10 @@ fn get_int(val: &Option<Value>) -> Option<i64> {
 
 fn eval_abs<'a>(args: &[Option<Value<'a>>]) -> Option<Value<'a>> {
     match args.first()?.as_ref()? {
-        Value::Int(n) => Some(Value::Int(n.abs())),
+        Value::Int(n) => match n.checked_abs() {
+            Some(v) => Some(Value::Int(v)),
+            None => crate::sql::predicate::integer_overflow("ABS"),
+        },
         Value::Float(f) => Some(Value::Float(f.abs())),
         Value::Null => Some(Value::Null),
         _ => None,
@@ -146,7 +149,10 @@ fn eval_div<'a>(args: &[Option<Value<'a>>]) -> Option<Value<'a>> {
         return Some(Value::Null);
     }
 
-    Some(Value::Int(a / b))
+    match a.checked_div(b) {
+        Some(v) => Some(Value::Int(v)),
+        None => crate::sql::predicate::integer_overflow("DIV"),
+    }
 }
 
 fn eval_ceil<'a>(args: &[Option<Value<'a>>]) -> Option<Value<'a>> {
